@@ -14,6 +14,19 @@ var maxWorthBidAmount = math.NewIntFromBigInt(new(big.Int).Lsh(big.NewInt(1), 25
 // LegacyDec, whose QuoTruncate panics with "Int overflow", although the matched amount - the minimum of
 // the quotient and the bidder's allowance - does not. Matching runs in the begin blocker, where such a
 // panic halts the chain. A quotient beyond the Int range is clamped.
+// payingAmountOf returns price times amount, rounded up. Like worthBidAmount it avoids LegacyDec for the
+// intermediate: an amount above 2^255 does not fit the decimal type once scaled by 10^18, and
+// matchPrice.MulInt(amount) panics with "Int overflow" in the begin blocker. The result never exceeds what
+// the bid reserved.
+func payingAmountOf(price math.LegacyDec, amount math.Int) math.Int {
+	n := new(big.Int).Mul(price.BigInt(), amount.BigInt())
+	q, r := new(big.Int).QuoRem(n, math.LegacyOneDec().BigInt(), new(big.Int))
+	if r.Sign() > 0 {
+		q.Add(q, big.NewInt(1))
+	}
+	return math.NewIntFromBigInt(q)
+}
+
 func worthBidAmount(worth math.Int, price math.LegacyDec) math.Int {
 	q := new(big.Int).Mul(worth.BigInt(), math.LegacyOneDec().BigInt())
 	q.Quo(q, price.BigInt())
@@ -69,7 +82,7 @@ func Match(matchPrice math.LegacyDec, prices []math.LegacyDec, bidsByPrice map[s
 				return nil, false
 			}
 
-			payingAmt := matchPrice.MulInt(matchAmt).Ceil().TruncateInt()
+			payingAmt := payingAmountOf(matchPrice, matchAmt)
 
 			bidderRes, ok := res.MatchResultByBidder[bid.Bidder]
 			if !ok {
